@@ -41,6 +41,10 @@ pub struct Durable {
     pub fault: Option<StoreFault>,
     pub fault_fired: bool,
     pub reads: u64,
+    /// Read call number `k` (0-based, counted from the moment this is armed) returns an error.
+    pub read_fault_at: Option<u64>,
+    pub reads_since_armed: u64,
+    pub read_fault_fired: bool,
 }
 
 pub const INJECTED_KILL: &str = "injected: process killed inside store call";
@@ -48,6 +52,17 @@ pub const INJECTED_KILL: &str = "injected: process killed inside store call";
 impl Durable {
     fn name_of(&self, id: u64) -> String {
         self.names.get(id as usize).cloned().unwrap_or_default()
+    }
+
+    fn before_read(&mut self) -> Result<(), StoreError> {
+        self.reads += 1;
+        let k = self.reads_since_armed;
+        self.reads_since_armed += 1;
+        if self.read_fault_at == Some(k) {
+            self.read_fault_fired = true;
+            return Err(StoreError::DelegateMessage("injected store read error".into()));
+        }
+        Ok(())
     }
 
     fn before_mutation(&mut self) -> Result<(), StoreError> {
@@ -111,7 +126,7 @@ impl NodePersistence for RecordingStore {
 
     fn get_value(&self, id: u64, buffer: &mut BytesMut) -> Result<Option<usize>, StoreError> {
         let mut d = self.inner.lock();
-        d.reads += 1;
+        d.before_read()?;
         Ok(d.values.get(&id).map(|v| {
             buffer.extend_from_slice(v);
             v.len()
@@ -170,7 +185,7 @@ impl NodePersistence for RecordingStore {
 
     fn read_map(&self, id: u64) -> Result<MapSnapshot, StoreError> {
         let mut d = self.inner.lock();
-        d.reads += 1;
+        d.before_read()?;
         let entries = d
             .maps
             .get(&id)
